@@ -2,6 +2,7 @@ import Skv.Lemmas.PipelinePermits
 import Skv.Lemmas.LockOrder
 import Skv.Lemmas.Stall
 import Skv.Lemmas.PipeTerm
+import Skv.Lemmas.BgWork
 import Skv.Props.C05
 /-!
 # C17 — commits and shutdown always complete; no internal queue overflows
@@ -355,3 +356,28 @@ theorem C17_all_calls_return (n gc p c : Nat) (hp : 0 < p) (hpc : p ≤ c) (ops 
           ((PState.initWith n gc p c).run (ops ++ [.step i])).runSched sched := by
         rw [hrun]; rfl
       rw [this]; exact hr
+
+
+/-! ## the work that ends an L0 stall is always scheduled -/
+
+/-- **C17 (a stalled writer is never left without a compaction on its way).** With a foreground flush
+(checkpoint) notifying the level-compaction task like the background flush task does, in every
+reachable state in which writers stall on the number of L0 tables the compaction has been notified;
+and the run it triggers ends the stall. -/
+theorem C17_stall_has_work_scheduled (ops : List BgOp) (s0 : BgState) (h0 : s0.l0 = 0) (ht : 0 < s0.trigger)
+    (hts : s0.trigger ≤ s0.stallAt) (hst : (s0.run true ops).stalled = true) :
+    (s0.run true ops).scheduled = true ∧ ((s0.run true ops).step true .compactRun).stalled = false := by
+  obtain ⟨hinv, htr, hsa⟩ := bginv_run ops s0 ht (by intro hc; omega)
+  have hl : (s0.run true ops).stallAt ≤ (s0.run true ops).l0 := by simpa [BgState.stalled] using hst
+  have hsch : (s0.run true ops).scheduled = true := hinv (by omega)
+  refine ⟨hsch, ?_⟩
+  simp only [BgState.step, hsch, if_true, BgState.stalled]
+  rw [if_pos (by omega)]
+  simp; omega
+
+/-- before the fix a checkpoint did not notify the compaction task: twelve checkpoints in a row leave the
+writers stalled with no compaction scheduled (kernel-checked witness; replayed on the real store by the
+`bgwork` stream) -/
+theorem C17_checkpoints_without_wake_stall_for_good :
+    let s := ({} : BgState).run false (List.replicate 12 .fgFlush)
+    s.stalled = true ∧ s.scheduled = false ∧ (s.step false .compactRun).stalled = true := by decide
